@@ -1,7 +1,11 @@
 """C01 — overlap integrals exact, unit diagonal, asymmetric = block of the union.
 
 Correspondence: Overlap.construct_array_contraction, overlap_integral and
-overlap_integral_asymmetric of /repo against the exact Coq model (commands 1-3)."""
+overlap_integral_asymmetric of /repo against the exact Coq model (commands 1-3).
+Stream "hp": Overlap.construct_array_contraction (command 1) and the moment kernel
+_compute_multipole_moment_integrals at order 0 (command 5; norms from the real norm_prim_cart) replayed in 260-bit
+arithmetic on object arrays (harness/hpnum.py) and compared at 1e-18 x sum|primitive terms|: a difference there is a
+difference of FORMULA (it cannot be rounding), and an unstable but algebraically identical rewrite passes it."""
 import itertools
 import random
 from fractions import Fraction
@@ -13,7 +17,9 @@ from lib import XShell, call_impl, compare, gen_shell, run_cases, shrink_shell_j
 RULE = ("block level: every (l_a, l_b) in 0..5 x 0..5 enumerated, K in 1..4, M in 1..3, centres k/16, exponents "
         "log-uniform over 0.02..cap(l) with 8-bit mantissas; basis level: 1-4 shells, each Cartesian or spherical "
         "independently, with/without a second basis; a case is non-trivial when the model block is not identically "
-        "zero and (l>0 or K>1 or M>1); distinct by the hash of the exact input")
+        "zero and (l>0 or K>1 or M>1); distinct by the hash of the exact input; hp stream: 8 (quick) / 80 (thorough) "
+        "shell pairs l<=2 / l<=4, K,M<=2 (general / coincident / full-mantissa / tight pair 100-150 bohr from the "
+        "origin), replayed at 260 bits, tolerance 1e-18 x sum|primitive terms|")
 RULE += " HISTORY stream (the returned value depends only on the arguments): basis-level shells carry the atom index (icenter; shells sharing a centre share it); every 2nd generated basis (quick; every 4th thorough) and every 5th same-centre pair is a GEOMETRY SCAN evaluated in one process: the same shells (exponents, coefficients, types, icenter) with the atoms displaced rigidly by k/16 bohr (one atom, or every atom by its own vector) at 1-2 further geometries, then the first geometry again; every call is compared with the exact model at its own geometry with the same tolerance (detail kind \"history\", the replay case contains the geometries; shrinking and replay evaluate every candidate sequence in a fresh process)"
 ASSUMPTIONS = ["floating-point rounding of the NumPy pipeline is not modelled: the 1e-8 bound is decided on the "
                "generated inputs against the exact value"]
@@ -25,6 +31,8 @@ def eval_case(model, case):
     from gbasis.integrals.overlap_asymm import overlap_integral_asymmetric
 
     kind = case["kind"]
+    if kind == "block" and case.get("hp"):
+        return eval_hp(model, case)
     if kind == "block":
         sa, sb = XShell.from_json(case["a"]), XShell.from_json(case["b"])
         res = model.call("(1 %s %s)" % (sa.sx(), sb.sx()))
@@ -84,6 +92,27 @@ def eval_case(model, case):
     raise ValueError(kind)
 
 
+def eval_hp(model, case):
+    """high-precision replay (harness/hpnum.py).  "hp": 1 - Overlap.construct_array_contraction vs command 1;
+    "hp": 5 - the kernel as Overlap calls it (origin 0, the single order (0,0,0)) vs command 5."""
+    import hpnum
+    sa, sb = XShell.from_json(case["a"]), XShell.from_json(case["b"])
+    if case["hp"] == 5:
+        def call(ha, hb):
+            from gbasis.integrals._moment_int import _compute_multipole_moment_integrals
+            return _compute_multipole_moment_integrals(
+                hpnum.hp_array([0, 0, 0]), np.zeros((1, 3), dtype=int),
+                ha.coord, ha.angmom_components_cart, ha.exps, ha.coeffs, ha.norm_prim_cart,
+                hb.coord, hb.angmom_components_cart, hb.exps, hb.coeffs, hb.norm_prim_cart)
+        return hpnum.eval_pair(model, case, "(5 (0 0 0) ((0 0 0)) %s %s)" % (sa.sx(), sb.sx()), call,
+                               "moment-kernel order 0", seg_axes=(1, 3))
+
+    def call(ha, hb):
+        from gbasis.integrals.overlap import Overlap
+        return Overlap.construct_array_contraction(ha, hb)
+    return hpnum.eval_pair(model, case, "(1 %s %s)" % (sa.sx(), sb.sx()), call, "overlap")
+
+
 def block_tol(model, sa, sb):
     """Blocks from construct_array_contraction are not contraction-normalised: scale the 1e-8 of the
     property (stated for normalised functions) by the geometric mean of the two self-overlaps."""
@@ -128,7 +157,11 @@ def gen_cases(tier, seed):
     from lib import gen_basis
     import twoindex
     rng = random.Random(1000003 * seed + 1)
-    cases = [c for c in twoindex.gen_cases(tier, seed, salt=1, lmax_block=5, with_T=False, nb_quick=0, nb_thorough=0,
+    hp = twoindex.hp_cases(tier, seed, salt=1, n_quick=8, n_thorough=80)
+    for i, c in enumerate(hp):
+        if i % 2:
+            c["hp"] = 5
+    cases = hp + [c for c in twoindex.gen_cases(tier, seed, salt=1, lmax_block=5, with_T=False, nb_quick=0, nb_thorough=0,
                                            block_reps_thorough=4)]
     for c in cases:
         c.pop("T", None)
